@@ -1730,11 +1730,19 @@ section Derived
 open Frappy Frappy.Datatypes FloatOps Frappy.Lemmas.C03Datainfo
 variable {F : Type} [FloatOps F] [LawfulFloatOps F] [CompatLaws F]
 
-/-- **derived_datainfo_equiv** (the datatype-oracle law `AcceptLaw`, PROVED for the datatype trees of C01–C03).  For
+/-- the full statement: for EVERY well-formed datatype tree the client rebuilt from the exported datainfo answers every
+payload as the original does.  It fails for scaled limits that are not on the grid (`derived_datainfo_equiv_fails`,
+recorded finding `C06:datainfo-disagrees:scaled-limit-off-grid`); `derived_datainfo_equiv_partial` proves it for
+all trees whose scaled limits are grid values (`Exportable`). -/
+def derived_datainfo_equiv_statement (F : Type) [FloatOps F] : Prop :=
+  ∀ (D : Consts F), D.OK → ∀ t : DInfo F, t.WF D →
+    ∃ di, exportDatatype D t = .ok di ∧ ∀ j prev, clientAccept D di j prev = acceptWire t.erase j prev
+
+/-- **derived_datainfo_equiv_partial** (the datatype-oracle law `AcceptLaw`, PROVED for the datatype trees of C01–C03).  For
 every well-formed tree whose scaled limits lie on the grid: `export_datatype()` succeeds, and a client that rebuilds
 its datatype from that datainfo does with EVERY payload (and every previous value) exactly what the dispatcher does
 with the original object — same verdict, same error class, same value. -/
-theorem derived_datainfo_equiv (D : Consts F) (hD : D.OK) (t : DInfo F) (hwf : t.WF D) (hex : t.Exportable) :
+theorem derived_datainfo_equiv_partial (D : Consts F) (hD : D.OK) (t : DInfo F) (hwf : t.WF D) (hex : t.Exportable) :
     ∃ di, exportDatatype D t = .ok di ∧ ∀ j prev, clientAccept D di j prev = acceptWire t.erase j prev := by
   obtain ⟨di, t', h1, h2, _, h4, h5⟩ := Frappy.Props.C03.rebuild_equiv D hD t hwf hex
   refine ⟨di, h1, fun j prev => ?_⟩
@@ -1775,7 +1783,7 @@ theorem configured_scaled_described (D : Consts F) (hD : D.OK) (s mn mx ar rr x 
   have hex : (DInfo.scaled s mn x ar rr u f).Exportable := ⟨hmn, hax⟩
   refine ⟨_, cfg_limit_stored D hD .max x s mn mx ar rr u f hx hc, hle, hwf', ?_⟩
   obtain ⟨_, kmax, fields, e1, _, e3, _, e5⟩ := Frappy.Props.C03.scaled_description_exact D s mn x ar rr u f hmn hax
-  obtain ⟨di, d1, d2⟩ := derived_datainfo_equiv D hD _ hwf' hex
+  obtain ⟨di, d1, d2⟩ := derived_datainfo_equiv_partial D hD _ hwf' hex
   rw [e1] at d1; injection d1 with d1; subst d1
   exact ⟨kmax, fields, e1, e3, e5, d2⟩
 
@@ -1792,7 +1800,7 @@ theorem described_datainfo_equiv_derived (pre : Predef) (D : Consts F) (hD : D.O
         ∀ j prev, liftRes (clientAccept D ad.datainfo j prev) = p.dt.accept j prev := by
   obtain ⟨mod, p, hl, _, hdi, _, _⟩ := described_is_dispatched pre n hwf m a ad h hk
   refine ⟨mod, p, hl, fun ev t hp htw hte j prev => ?_⟩
-  obtain ⟨di, d1, d2⟩ := derived_datainfo_equiv D hD t htw hte
+  obtain ⟨di, d1, d2⟩ := derived_datainfo_equiv_partial D hD t htw hte
   rw [hdi, hp]
   simp only [dtOpsOf, d1, d2 j prev]
 
@@ -1872,8 +1880,42 @@ example : ∃ di, exportDatatype D4 t4 = .ok di ∧
     clientAccept D4 di (.int 5) none = acceptWire t4.erase (.int 5) none ∧
     look (acceptWire t4.erase (.int 3) none) = (none, some (3/10)) ∧
     look (acceptWire t4.erase (.int 5) none) = (some .range, none) := by
-  obtain ⟨di, h1, h2⟩ := derived_datainfo_equiv D4 D4_ok t4 t4_wf t4_exportable
+  obtain ⟨di, h1, h2⟩ := derived_datainfo_equiv_partial D4 D4_ok t4 t4_wf t4_exportable
   exact ⟨di, h1, h2 _ _, h2 _ _, by decide +kernel, by decide +kernel⟩
+
+
+/-- a scaled limit OFF the grid, as a configuration may set it (`cfg_limit_stored`: nothing moves it): `max = 0.34` at
+scale 0.1.  The description says `max = 3`; the node takes the payload 4 (0.4 lies within one scale of 0.34: it is
+"silently clamped" to the grid value 0.3 of the limit), the client rebuilt from the description (limit 0.3: 0.4 is a
+full scale away) refuses it. -/
+def t5 : DInfo Rat := .scaled (1/10) 0 (34/100) (1/10) (12/100000000) "" "%g"
+
+theorem t5_wf : t5.WF D4 := by
+  simp only [t5, DInfo.WF, DType.WF, DInfo.strOK]; decide +kernel
+
+def di5 : JVal Rat := .obj [("scale", .num (1/10)), ("type", .str "scaled"), ("min", .int 0), ("max", .int 3)]
+
+theorem export5 : exportDatatype D4 t5 = .ok di5 := by
+  have h1 : DType.gridIndex (1/10 : Rat) 0 = some 0 := by decide +kernel
+  have h2 : DType.gridIndex (1/10 : Rat) (34/100) = some 3 := by decide +kernel
+  have h3 : scaledAbsResField D4 (1/10 : Rat) (1/10) = [] := by decide +kernel
+  have h4 : (!feq (12/100000000 : Rat) D4.relRes) = false := by decide +kernel
+  simp [t5, di5, exportDatatype, h1, h2, h3, h4, optField]
+
+theorem offgrid5 : look (acceptWire t5.erase (.int 4) none) = (none, some (3/10)) ∧
+    look (clientAccept D4 di5 (.int 4) none) = (some .range, none) := by
+  refine ⟨by decide +kernel, by decide +kernel⟩
+
+/-- **derived_datainfo_equiv_fails**: the full statement does not hold (over the exact carrier: no rounding involved) -/
+theorem derived_datainfo_equiv_fails : ¬ derived_datainfo_equiv_statement Rat := by
+  intro h
+  obtain ⟨di, h1, h2⟩ := h D4 D4_ok t5 t5_wf
+  rw [export5] at h1; injection h1 with h1; subst h1
+  have := h2 (.int 4) none
+  have h3 := offgrid5
+  rw [this] at h3
+  have : (none, some (3/10 : Rat)) = ((some Err.range, none) : Option Err × Option Rat) := h3.1.symm.trans h3.2
+  cases this
 
 def p4 : Param (JVal Rat) (PVal Rat) :=
   { attr := "p", exp := .auto, limitHead := none, isLimitsPair := false, readonly := false, constant := none,
